@@ -36,7 +36,9 @@ AUDIT_FILE = "PyYetiVerif/Audit/C12.lean"
 THEOREMS = [
     "PyYetiVerif.C12." + n
     for n in (
-        "table_rows_ok fixed_branch_width fixed_branch_width_rat fixed_branch_width_tables fixed_branch_accuracy_partial "
+        "table_rows_ok fixed_branch_width fixed_branch_width_rat fixed_branch_width_tables "
+        "sscanf_parses_field sscanf_parses_recognised fixed_branch_accuracy fixed_precision_maximal "
+        "sci_consts_ok sci_width_accuracy sci_width "
         "carry_guard_sound int_field_roundtrip blank_field_roundtrip line_roundtrip "
         "card_line_roundtrip_partial"
     ).split()
@@ -261,6 +263,51 @@ def _fmt3(bulk, x):
     return "|".join(out)
 
 
+_FLD_RE = None
+
+
+def _py_field(bulk, s):
+    """harness-side reading of the emitted-field grammar (independent of the Lean recogniser):
+    ' '* [-] digit* . digit* [[D](+|-)digit+], at least one mantissa digit, exponent <= 5000;
+    the last component is the bit pattern of what nas_sscanf returns for the string."""
+    global _FLD_RE
+    import re
+
+    if _FLD_RE is None:
+        _FLD_RE = re.compile(r" *(-?)([0-9]*)\.([0-9]*)(?:(D?)([+-])([0-9]+))?\Z")
+    m = _FLD_RE.match(s)
+    if not m or not (m.group(2) or m.group(3)):
+        return "none"
+    sg, ip, fp, d, es, ed = m.groups()
+    if es and int(ed) > 5000:
+        return "none"
+    v = bulk.nas_sscanf(s)
+    bits = "f%d" % _bits(v) if isinstance(v, float) else repr(v)
+    if es:
+        return "%d|%s|%s|%d|%s|%s|%s" % (1 if sg else 0, ip, fp, 1 if d else 0, es, ed, bits[1:] if bits[0] == "f" else bits)
+    return "%d|%s|%s|-|-||%s" % (1 if sg else 0, ip, fp, bits[1:] if bits[0] == "f" else bits)
+
+
+def _sci2(bulk, x):
+    out = []
+    for f in (bulk._format_scientific8, bulk._format_scientific16):
+        try:
+            out.append(f(x))
+        except Exception as e:  # noqa: BLE001
+            out.append("exc:" + type(e).__name__)
+    return "|".join(out)
+
+
+def _sci_branch(W, s, x):
+    """branch label of a scientific field: exponent digits, sign, carry form `10.`"""
+    t = s.strip()
+    if t in ("0.", "0.D+0"):
+        return "sci%d:zero" % W
+    i = max(t.rfind("+"), t.rfind("-"))
+    L = len(t) - i - 1
+    return "sci%d:%s:L%d%s" % (W, "neg" if x < 0 else "pos", L, ":carry" if t.lstrip("-").startswith("10.") else "")
+
+
 # ------------------------------------------------------------------------------------ cards
 
 _LET = "ABCDEFGHIJKLMNOPQRSTUVWXYZ"
@@ -454,6 +501,55 @@ def correspondence(ctx):
         ctx.extra["unreached_branches"] = [n for n in need if not ctx.hist.get(n)]
     else:
         ctx.require_branches(need)
+
+    # --- stream `sci`: _format_scientific8/16 and format_double16 on every value -----------
+    rep = _ask(ctx, ["sci %d" % _bits(x) for x, _ in vals])
+    nbad = 0
+    emitted = {}
+    for (x, origin), r in zip(vals, rep):
+        got = _sci2(bulk, x)
+        ctx.case(("sci", _bits(x)), nontrivial=(x != 0.0), branch="sci")
+        if "exc:" not in got:
+            g8, g16 = got.split("|")
+            ctx.count(_sci_branch(8, g8, x))
+            ctx.count(_sci_branch(16, g16, x))
+            emitted.setdefault(g8, x)
+            emitted.setdefault(g16, x)
+        if got != r:
+            nbad += 1
+            if nbad <= 100:
+                ctx.disagree("sci", {"kind": "number", "bits": _bits(x), "repr": repr(x), "fmt": "sci"}, got, r)
+    need = ["sci%d:%s:L%d" % (W, sg, L) for W in (8, 16) for sg in ("pos", "neg") for L in (1, 2, 3)]
+    need += ["sci%d:%s:L%d:carry" % (W, sg, L) for W in (8, 16) for sg in ("pos", "neg") for L in (1, 2)]
+    need += ["sci8:zero", "sci16:zero"]
+    if not ctx.broken:
+        ctx.require_branches(need)
+
+    # --- stream `grammar`: every emitted field is in the grammar of Spec/NasFloatField, the Lean
+    # recogniser and the harness regex split it alike, and the decimal it denotes rounds to what
+    # nas_sscanf returns -------------------------------------------------------------------
+    for x, _ in vals[:: max(1, len(vals) // ctx.pick(40000, 400000))]:
+        for t in _fmt3(bulk, x).split("|"):
+            emitted.setdefault(t, x)
+    emitted = {t: x for t, x in emitted.items() if not t.startswith("exc:")}
+    others = ["1.5-3", "-1.235+7", ".5-3", "-.5", "1.D+0", "  10.+10", "1.2D-300", "1.5e-3", "1.5E3", "1.5d3", "15",
+              " 1.5 ", "1.5-", "1.5+-3", ".", "-.", "1.5D3", "1.5-3x", "+1.5-3", "1.5-5001", "1.5-5000", "0.", "0.D+0",
+              "1..5", "", "   ", "GRID", "1.5 -3", "--1.", "1.-0", "10.+0"]
+    strs = list(emitted) + others
+    rep = _ask(ctx, ["fld " + _hex(t) for t in strs])
+    for t, r in zip(strs, rep):
+        got = _py_field(bulk, t)
+        kind = "none" if got == "none" else {"-": "plain", "0": "exp", "1": "D"}[got.split("|")[3]]
+        ctx.case(("fld", t), branch="grammar:" + kind)
+        if t in emitted and got == "none":
+            ctx.disagree("grammar", {"kind": "number", "bits": _bits(emitted[t]), "repr": repr(emitted[t]),
+                                     "field": t}, "emitted field outside the grammar", r)
+        elif got != r:
+            inp = {"kind": "scan", "string": t}
+            if t in emitted:
+                inp = {"kind": "number", "bits": _bits(emitted[t]), "repr": repr(emitted[t]), "field": t}
+            ctx.disagree("grammar", inp, got, r)
+    ctx.require_branches(["grammar:plain", "grammar:exp", "grammar:D", "grammar:none"])
 
     # --- stream `pyfloat`: the CPython conversions themselves ----------------------------
     rng = ctx.rng
